@@ -16,6 +16,20 @@ def build():
     out.append(coq_strs("SAFE_REDIRECT_TARGETS",
                         const_strs(module_assign(an, "SAFE_REDIRECT_TARGETS"), "SAFE_REDIRECT_TARGETS"),
                         "core/analyzer.py SAFE_REDIRECT_TARGETS"))
+    out.append(coq_strs("EXECUTION_ENV_VARS",
+                        const_strs(module_assign(allow, "EXECUTION_ENV_VARS"), "EXECUTION_ENV_VARS"),
+                        "core/allowlists.py EXECUTION_ENV_VARS: variables that decide what runs"))
+    out.append(coq_strs("SYSTEM_PATH_DIRS",
+                        const_strs(module_assign(allow, "SYSTEM_PATH_DIRS"), "SYSTEM_PATH_DIRS"),
+                        "core/allowlists.py SYSTEM_PATH_DIRS: directories a PATH may list"))
+    sev = func(allow, "sets_execution_var")
+    lits = sorted({c.value for c in ast.walk(sev) if isinstance(c, ast.Constant) and isinstance(c.value, str) and len(c.value) < 8})
+    if lits != [":", "=", "PATH"]:
+        raise TieBroken(f"sets_execution_var: expected the literals ':', '=', 'PATH' (found {lits})")
+    rx = module_assign(allow, "_ASSIGNED_NAME")
+    if not (isinstance(rx, ast.Call) and rx.args and isinstance(rx.args[0], ast.Constant)
+            and rx.args[0].value == r"([A-Za-z_][A-Za-z0-9_]*)(\+?=)(.*)"):
+        raise TieBroken("_ASSIGNED_NAME: the regular expression changed")
     unk = module_assign(an, "_UNKNOWN_CWD")
     if not (isinstance(unk, ast.Call) and getattr(unk.func, "id", None) == "Path" and len(unk.args) == 1):
         raise TieBroken("_UNKNOWN_CWD: expected Path(<string expression>)")
@@ -46,11 +60,27 @@ def build():
                         "_changes_directory: prefixes that run a builtin in the current shell"))
     out.append(coq_strs("CHDIR_OPAQUE_KINDS", pick(chd, ["subshell", "cmdsub"], "kinds run in their own process"),
                         "_changes_directory: node kinds whose directory changes do not reach the current shell"))
+    nv = func(an, "_names_variable")
+    out.append(coq_strs("NAME_EVAL_ALL", pick(in_tuples(nv, "names_variable"), ["test", "read"], "builtins whose arguments are variable names"),
+                        "_names_variable: builtins that evaluate every argument as a variable name"))
+    eqs = [c for c in ast.walk(nv) if isinstance(c, ast.Compare) and len(c.ops) == 1 and isinstance(c.ops[0], ast.Eq)
+           and isinstance(c.comparators[0], ast.Constant) and isinstance(c.comparators[0].value, str)]
+    cmd_eq = [c.comparators[0].value for c in eqs if isinstance(c.left, ast.Name) and c.left.id == "base"]
+    flag_eq = [c.comparators[0].value for c in eqs if isinstance(c.left, ast.Subscript)]
+    if len(cmd_eq) != 1 or len(flag_eq) != 1:
+        raise TieBroken("_names_variable: expected `base == <cmd> and words[position - 1] == <flag>`")
+    out.append(f"(* _names_variable: the builtin whose argument after a flag is a variable name *)\nDefinition NAME_EVAL_CMD : str := {coq_str(cmd_eq[0])}.\nDefinition NAME_EVAL_FLAG : str := {coq_str(flag_eq[0])}.\n")
     red = in_tuples(func(an, "_analyze_redirects"), "redirect ops")
     out.append(coq_strs("REDIRECT_WRITE_OPS", pick(red, [">", ">>"], "write operators"),
                         "_analyze_redirects: bare operators that open a file for writing"))
     out.append(coq_strs("REDIRECT_DUP_OPS", pick(red, [">&", "<&"], "dup operators"),
                         "_analyze_redirects: operators whose numeric/- target is an fd duplication"))
+    hs = [c.comparators[0].value for c in ast.walk(func(an, "_analyze_redirects")) if isinstance(c, ast.Compare) and len(c.ops) == 1
+          and isinstance(c.ops[0], ast.Eq) and isinstance(c.left, ast.Name) and c.left.id == "op"
+          and isinstance(c.comparators[0], ast.Constant) and isinstance(c.comparators[0].value, str)]
+    if hs != ["<<<"]:
+        raise TieBroken("_analyze_redirects: expected exactly one `op == \"<<<\"` test (scan_raw of here-string targets)")
+    out.append(f"(* _analyze_redirects: the operator whose target word is scanned as raw text *)\nDefinition HERESTRING_OP : str := {coq_str(hs[0])}.\n")
     cmd = in_tuples(func(an, "_analyze_command"), "command")
     out.append(coq_strs("TEST_COMMANDS", pick(cmd, ["[", "test"], "test commands"),
                         "_analyze_command: conditional test commands"))
